@@ -5,11 +5,12 @@ import HeartwoodModel.Driver.C08
 Driver entry for C07.
 
 Cases: `patch …` (syntax and output of `Driver/C08.lean`, whose wire helpers are reused) or
-`issue <docs> <order> <op0> <op1> …` with `op = author:doc:ts:tips:act|act|…` and issue actions
+`issue <docs> g=<ranks>/<sigbits> <op0> <op1> …` (the abstract change graph, evaluated by the MODEL with the
+generic evaluator of `Model/ChangeGraph.lean`, see `Driver/C08.lean`) with `op = author:doc:ts:tips:act|act|…` and issue actions
 `as,<actors+>` `ed,<title>,<kind>` `lc,o|s|c` `lb,<labels+>` `cm,<body>,<replyTo|->` `ce,<id>,<body>`
 `cr,<id>` `ca,<id>`.
-Output: `init-err` / `init-panic` / `bad-order`, or
-`r=<o|e|p per applied op>;t=<title>;st=open|closed.s|closed.o;lb=…;as=…;cm=<thread>`.
+Output: `init-err` / `init-panic` / …, or
+`o=<evaluation order>;r=<o|e per evaluated op>;t=<title>;st=open|closed.s|closed.o;lb=…;as=…;cm=<thread>`.
 -/
 namespace HeartwoodModel.Driver.C07
 open HeartwoodModel.Cob HeartwoodModel.Issue HeartwoodModel.Driver.Util HeartwoodModel.Driver.C08
@@ -40,35 +41,26 @@ def showIssue (i : Issue) : String :=
 def toOp (i : Nat) (w : WireOp Action) : Op :=
   { id := i, author := w.author, doc := w.doc, actions := w.actions }
 
-def evalOrder (ops : List (WireOp Action)) : Issue → List Nat → List String → List Bool →
-    Option (Issue × List String × List Bool)
-  | s, [], rs, fs => some (s, rs.reverse, fs.reverse)
-  | s, i :: rest, rs, fs =>
-    match ops[i]? with
-    | none => none
-    | some w =>
-      let r := op s (toOp i w)
-      evalOrder ops (step s (toOp i w)) rest (showRes r :: rs) ((match r with | .ok _ => true | _ => false) :: fs)
-
 def runIssue (args : List String) : String :=
   match args with
-  | docs :: order :: ops =>
-    match parseDocs docs, nats? order with
-    | some docs, some order =>
+  | docs :: gtok :: ops =>
+    match parseDocs docs with
+    | some docs =>
       match ops.mapM (parseWireOp parseAction docs) with
       | some (root :: rest) =>
         let all := root :: rest
-        match fromRoot (toOp 0 root) with
-        | .error .panic => "init-panic"
-        | .error _ => "init-err"
-        | .ok i0 =>
-          match evalOrder all i0 order [] [] with
-          | none => "bad-op"
-          | some (i, rs, fs) =>
-            if orderOk (all.map (·.tips)) order fs then s!"r={dash (joinWith "" rs)};{showIssue i}"
-            else "bad-order"
+        match parseG gtok all.length with
+        | none => "bad-op"
+        | some (ranks, sigs) =>
+          match fromRoot (toOp 0 root) with
+          | .error .panic => "init-panic"
+          | _ =>
+            let gops := mkGOps all (·.ts) sigs
+            showEval false showIssue
+              (evalGraph ranks (·.tips) gops (fun e => optOk (fromRoot (toOp e.idx e.w)))
+                (fun i e _ => optOk (op i (toOp e.idx e.w))))
       | _ => "bad-op"
-    | _, _ => "bad-op"
+    | none => "bad-op"
   | _ => "bad-op"
 
 def run (args : List String) : String :=
